@@ -899,7 +899,7 @@ PROPS["C11"] = {
             "a signal removed, duplicated (same or other direction), an extra signal (also named like a virtual signal or a loop variable), a direction changed, a signal renamed (also to <name>_out), "
             "the list reordered; every accepted pair is then iterated to the end under catch_unwind; projection = bind verdict with error kind, bound signal list, read list, rows; "
             "non-trivial = reaches the bind step; distinct = hash of the projection",
-    "proved": "with_signals p sigs = Ok <-> fits p sigs (the property's sentence as a boolean) for every parsed test with a duplicate-free header and every signal list; exact hypothesis-free form; "
+    "proved": "which error a refused binding gets is specified declaratively (refusal_exact: priority duplicate signal > declared name is a device signal > all unknown columns > C column not an input > read not an output) and equals the code's error for every input; with_signals p sigs = Ok <-> fits p sigs (the property's sentence as a boolean) for every parsed test with a duplicate-free header and every signal list; exact hypothesis-free form; "
               "error otherwise; never panics, never out of fuel; an accepted pair satisfies wf_tc, the precondition of C10's no-panic theorem (given wf_parsed from the parser and well-formed caller-supplied virtual signals, "
               "which the public API cannot construct ill-formed)",
     "validated_only": "that ParsedTestCase::with_signals behaves as Bind.with_signals (verdict and error kind compared on every case); which error is returned when several apply",
